@@ -122,10 +122,14 @@ MkOutcome(st, rq) ==
                       store |-> Upd(st.store, c, EmptyFn),
                       props |-> Upd(st.props, c, EmptyFn)])
 
-DeleteCollOutcome(st, rq) ==
+\* DELETE of a collection; like every DELETE it honours If-Match (rq.im), evaluated against
+\* the validator curTag the collection itself currently has (its getetag)
+DeleteCollOutcome(st, rq, curTag) ==
     LET c == rq.c IN
     IF ~Exists(st, c)
-      THEN MustFail(st, "absent", {"notfound"})
+      THEN MustFail(st, "absent", {"notfound", "precond"})
+    ELSE IF rq.im.present /\ ~CondMatches(rq.im, curTag)
+      THEN MustFail(st, "ifmatch", {"precond"})
     ELSE MustSucceed([colls |-> Drop(st.colls, c),
                       store |-> Drop(st.store, c),
                       props |-> Drop(st.props, c)])
